@@ -599,6 +599,9 @@ class Runner:
         elif cn == "VM":
             from microjs.vm import VM
             o = VM()
+        elif cn == "Compiler":
+            from microjs.compiler import Compiler
+            o = Compiler()
         elif cn == "CallFrame":
             from microjs.vm import CallFrame
             from microjs.compiler import CompiledFunction
@@ -729,7 +732,7 @@ FIELD_TYPES = {
     "CompiledFunction.constants": "list", "CompiledFunction.bytecode": "bytes",
     "CompiledFunction.locals": "list", "CompiledFunction.params": "list",
     "CompiledFunction.free_vars": "list", "CompiledFunction.cell_vars": "list",
-    "Compiler.bytecode": "list", "Compiler.constants": "list", "Compiler.locals": "list",
+    "Compiler.bytecode": "list", "Compiler.source_map": "dict", "Compiler.constants": "list", "Compiler.locals": "list",
     "JSTypedArray._data": "list", "JSFunction.params": "list",
     "ForInIterator.keys": "list", "ForOfIterator.values": "list",
 }
